@@ -1,9 +1,11 @@
 import Mc.Drv.Merge
+import Mc.Drv.Apply
 open Mc Mc.Drv
 
 def dispatch (c : J) : Res :=
   match c.getStr "kind" with
   | "merge" => handleMerge c
+  | "apply" => handleApply c
   | k => { agree := false, where_ := s!"unknown kind {k}" }
 
 partial def loop (h : IO.FS.Stream) (out : IO.FS.Stream) : IO Unit := do
